@@ -388,6 +388,9 @@ def attack(net: Net, game, rng: random.Random, log: List[str]):
         ("nmap-ping", lambda: req(["application", "nmap", "ping_scan", {"target_ip_address": ipB, "show": False}])),
         ("nmap-port", lambda: req(["application", "nmap", "port_scan", {"target_ip_address": ipB, "target_port": [80, 5432, 21],
                                                                         "target_protocol": ["tcp", "udp"], "show": False}])),
+        # ... and the ports the simulator itself treats specially (219 is the port ARP travels on)
+        ("nmap-port-special", lambda: req(["application", "nmap", "port_scan", {"target_ip_address": ipB, "target_port": [219, 53, 123, 22],
+                                                                                "target_protocol": ["udp", "tcp"], "show": False}])),
         ("db-client", lambda: req(["application", "database-client", "execute"])),
         ("web", lambda: (setattr(net.A.software_manager.software["web-browser"], "target_url", f"http://{ipB}/"),
                          req(["application", "web-browser", "execute"]))),
